@@ -6,7 +6,11 @@
  *   DETSYS_PLAN=kind:k:errno[,kind:k:errno...]
  *                              the k-th call (0-based, per kind, since process start) of
  *                              kind in {getrandom, write, open, mkdir} fails. errno is one of
- *                              eintr, eio, enospc, eacces, eperm, emfile, short (short count)
+ *                              eintr, eio, enospc, eacces, eperm, emfile, short (short count);
+ *                              for mkdir also "raced": not a failure of the call but another
+ *                              process winning the race - the directory is created on its behalf
+ *                              immediately before the tool's own call goes through (which then
+ *                              meets EEXIST, as it would in a real race)
  *   DETSYS_CLOCK_OFFSET=<i64>  seconds added to clock_gettime(CLOCK_REALTIME)/gettimeofday/time
  *   DETSYS_CLOCK_ABS=<i64>     the wall clock reads exactly this many seconds since the epoch (frozen)
  *   DETSYS_REPORT=<path>       at exit, write one line of call counts and fired faults
@@ -48,6 +52,7 @@ static long long clock_off;
 static long long clock_abs;
 static int have_abs;
 static const char *report_path;
+static long nraced;
 
 /* in-process arming */
 static int armed;
@@ -61,6 +66,7 @@ static int (*real_clock_gettime)(clockid_t, struct timespec *);
 static int (*real_gettimeofday)(struct timeval *, void *);
 
 #define E_SHORT (-2)
+#define E_RACED (-3)
 
 static int parse_err(const char *s) {
   if (!strcmp(s, "eintr")) return EINTR;
@@ -70,6 +76,7 @@ static int parse_err(const char *s) {
   if (!strcmp(s, "eperm")) return EPERM;
   if (!strcmp(s, "emfile")) return EMFILE;
   if (!strcmp(s, "short")) return E_SHORT;
+  if (!strcmp(s, "raced")) return E_RACED;
   return EIO;
 }
 
@@ -128,7 +135,7 @@ static ssize_t do_getrandom(void *buf, size_t len, unsigned flags) {
   }
   if (inj == E_SHORT) {
     if (len >= 2) len = len / 2; /* deliver a short count */
-  } else if (inj) {
+  } else if (inj > 0) {
     errno = inj;
     return -1;
   }
@@ -161,7 +168,7 @@ ssize_t write(int fd, const void *buf, size_t n) {
   if (fd > 2) {
     int inj = consult(K_WRITE);
     if (inj == E_SHORT) { if (n >= 2) n = n / 2; }
-    else if (inj) { errno = inj; return -1; }
+    else if (inj > 0) { errno = inj; return -1; }
   }
   return real_write(fd, buf, n);
 }
@@ -170,7 +177,7 @@ static int open_common(const char *name, const char *path, int flags, mode_t mod
   init();
   if (flags & (O_CREAT | O_WRONLY | O_RDWR)) {
     int inj = consult(K_OPEN);
-    if (inj && inj != E_SHORT) { errno = inj; return -1; }
+    if (inj > 0) { errno = inj; return -1; }
   }
   if (at) return (int)real_syscall(SYS_openat, (long)dirfd, (long)path, (long)flags, (long)mode, 0L, 0L);
   return (int)real_syscall(SYS_openat, (long)AT_FDCWD, (long)path, (long)flags, (long)mode, 0L, 0L);
@@ -185,7 +192,8 @@ int openat64(int dirfd, const char *path, int flags, ...) { GETMODE return open_
 
 int mkdir(const char *path, mode_t mode) {
   int inj = consult(K_MKDIR);
-  if (inj && inj != E_SHORT) { errno = inj; return -1; }
+  if (inj == E_RACED) { int e = errno; if (real_mkdir(path, 0777) == 0) nraced++; errno = e; }
+  else if (inj > 0) { errno = inj; return -1; }
   return real_mkdir(path, mode);
 }
 
@@ -221,8 +229,8 @@ __attribute__((destructor)) static void report(void) {
   n += snprintf(buf + n, sizeof buf - n, "},\"fired\":[");
   int first = 1;
   for (int i = 0; i < nplans; i++)
-    if (plans[i].fired) { n += snprintf(buf + n, sizeof buf - n, "%s\"%s:%ld\"", first ? "" : ",", KNAME[plans[i].kind], plans[i].k); first = 0; }
-  n += snprintf(buf + n, sizeof buf - n, "]}\n");
+    if (plans[i].fired && plans[i].err != E_RACED) { n += snprintf(buf + n, sizeof buf - n, "%s\"%s:%ld\"", first ? "" : ",", KNAME[plans[i].kind], plans[i].k); first = 0; }
+  n += snprintf(buf + n, sizeof buf - n, "],\"raced\":%ld}\n", nraced);
   int fd = (int)real_syscall(SYS_openat, (long)AT_FDCWD, (long)report_path, (long)(O_WRONLY | O_CREAT | O_TRUNC), 0644L, 0L, 0L);
   if (fd >= 0) { real_syscall(SYS_write, (long)fd, (long)buf, (long)n, 0L, 0L, 0L); real_syscall(SYS_close, (long)fd, 0L, 0L, 0L, 0L, 0L); }
 }
